@@ -458,6 +458,18 @@ func (ex *Exec) strConst(s string) Term {
 	return intLit(int64(id))
 }
 
+// strLess is Go's `<` on strings. Strings are tokens (equal tokens = equal strings); their order is an arbitrary strict
+// total order: lexicographic on (strrank(x), x) with strrank an uninterpreted function into the reals. Every countable
+// total order embeds into the rationals, so the real string order is one of the interpretations (with an injective
+// strrank the tie-break is never used), and irreflexivity, transitivity and totality need no axioms.
+func (ex *Exec) strLess(x, y Term) Term {
+	ex.note("string ordering is an arbitrary strict total order on string values (literals are not compared by content)")
+	real := Sort("Real")
+	f := ex.ctx.Fun("strrank", []Sort{SInt}, real)
+	rx, ry := app(real, f, x), app(real, f, y)
+	return tOr(app(SBool, "<", rx, ry), tAnd(tEq(rx, ry), tLt(x, y)))
+}
+
 func (ex *Exec) strLen(st *State, s Term) Term {
 	f := ex.ctx.Fun("strlen", []Sort{SInt}, SInt)
 	if v, ok := litVal(s); ok {
@@ -765,9 +777,14 @@ func (ex *Exec) binop(st *State, in ssa.Instruction, op token.Token, xv, yv Valu
 			ex.note("string concatenation is uninterpreted")
 			r := ex.uf(st, "strcat", SInt, x, y)
 			return Sc{r}
-		case token.LSS, token.LEQ, token.GTR, token.GEQ:
-			ex.note("string ordering is uninterpreted")
-			return Sc{ex.uf(st, "str"+sanitize(op.String()), SBool, x, y)}
+		case token.LSS:
+			return Sc{ex.strLess(x, y)}
+		case token.GTR:
+			return Sc{ex.strLess(y, x)}
+		case token.LEQ:
+			return Sc{tNot(ex.strLess(y, x))}
+		case token.GEQ:
+			return Sc{tNot(ex.strLess(x, y))}
 		}
 	}
 	switch op {
